@@ -40,6 +40,10 @@ type scanProfile struct {
 	Rule     string
 	Relational bool // C09: all orders of one graph must agree
 	Progress bool
+	// Expand turns one CLI case (a TLC-chosen graph) into variants (dates, layouts, root order);
+	// variants carry the same Group and must give identical numbers when RelationalCLI is set.
+	Expand        func(rng *rand.Rand, sc cases.ScanCase) []cases.ScanCase
+	RelationalCLI bool
 }
 
 var fieldsOf = map[string][]string{
@@ -452,7 +456,18 @@ func runScanProfile(c *Ctx, p scanProfile) {
 
 	// 3. CLI: TLC-chosen graphs and Go-generated repositories through the real binary
 	var cli []cases.ScanCase
-	cli = append(cli, cliFromTLC...)
+	groupOf := map[string]string{}
+	for _, sc := range cliFromTLC {
+		if p.Expand == nil {
+			cli = append(cli, sc)
+			continue
+		}
+		for k, v := range p.Expand(rng, sc) {
+			v.ID = fmt.Sprintf("%s.v%d", sc.ID, k)
+			groupOf[v.ID] = sc.ID
+			cli = append(cli, v)
+		}
+	}
 	for i := 0; i < p.NRandom; i++ {
 		gp := p.Gen
 		// vary the sizes a little per case
@@ -475,6 +490,32 @@ func runScanProfile(c *Ctx, p scanProfile) {
 			c.Sample(map[string]interface{}{"kind": "generated repository scanned by the binary", "id": cli[i].ID,
 				"objects": map[string]int{"blobs": len(r.G.Blobs), "trees": len(r.G.Trees), "commits": len(r.G.Commits), "tags": len(r.G.Tags)},
 				"roots": r.Case.Roots, "args": r.Args, "layout": cli[i].Layout, "noise": cli[i].Noise})
+		}
+	}
+	if p.RelationalCLI {
+		first := map[string]*cliRun{}
+		for _, r := range runs {
+			if r == nil || r.Exit != 0 {
+				continue
+			}
+			g := groupOf[r.Case.ID]
+			if g == "" {
+				continue
+			}
+			f, ok := first[g]
+			if !ok {
+				first[g] = r
+				continue
+			}
+			for _, fld := range model.NumericFields {
+				if string(r.JSON[fld]) != string(f.JSON[fld]) {
+					c.AddViolation(Violation{Predicate: "layout_or_date_dependent:" + fld, Spec: "Scan!C09_FunctionOfGraph (relational)",
+						Kind: "scan", Input: map[string]interface{}{"mode": "cli", "case": r.Case},
+						Expected: map[string]interface{}{"same_graph_variant": f.Case.ID, "value": string(f.JSON[fld])},
+						Observed: map[string]interface{}{"value": string(r.JSON[fld])}})
+					break
+				}
+			}
 		}
 	}
 	c.CountEval(int64(nrun))
